@@ -295,7 +295,7 @@ def step_level(ctx):
 
     rng = ctx.rng
     first = None
-    dev = zoo.make_device("bar_hole", rng, max_edge_length=1.0, gamma=float(rng.choice([1.0, 10.0])))
+    dev = zoo.make_device("bar_hole", rng, max_edge_length=1.0, gamma=float(rng.choice([0.0, 1.0, 10.0])))
     for adaptive, retries_forced in ((True, 0), (True, 1), (True, 2), (False, 0)):
         opts = runs.options(adaptive=adaptive, dt_init=1e-3, dt_max=0.5, max_solve_retries=6, adaptive_time_step_multiplier=float(rng.choice([0.25, 0.5])))
         solver = TDGLSolver(device=dev, options=opts, applied_vector_potential=float(rng.uniform(0.2, 1.5)))
@@ -351,7 +351,17 @@ def update_level(ctx):
 
     rng = ctx.rng
     first = None
-    dev = zoo.make_device("bar_hole", rng, max_edge_length=1.0, gamma=float(rng.choice([1.0, 3.0, 10.0])))
+    for gamma_ in (0.0, float(rng.choice([1.0, 3.0, 10.0]))):  # gamma = 0: the boundary value the chosen root must also handle
+        first = first or _update_level_gamma(ctx, rng, gamma_)
+    return first
+
+
+def _update_level_gamma(ctx, rng, gamma_):
+    import zoo
+    import runs
+
+    first = None
+    dev = zoo.make_device("bar_hole", rng, max_edge_length=1.0, gamma=gamma_)
     dt = 2e-3
     opts = runs.options(adaptive=False, dt_init=dt, terminal_psi=None)
     ref = runs.Reference(dev, opts, 2, applied_vector_potential=0.4, terminal_currents={"source": 2.0, "drain": -2.0})  # two ordinary steps first
@@ -367,12 +377,12 @@ def update_level(ctx):
         v = dict(psi=psi, abs_sq=np.abs(psi) ** 2, mu=mu, eps=np.asarray(solver.epsilon) * np.ones(n), gamma=solver.gamma, u=solver.u, dt=dt_out, M=solver.operators.psi_laplacian)
         z, w, b, disc, az2, aw2 = oracle_zw(v)
         bad = check_answer(v, (psi2, np.abs(psi2) ** 2), np.arange(n), z, w, b, disc, az2, aw2)
-        ctx.case(("update-from-arbitrary-state", rep, amp), nontrivial=True)
+        ctx.case(("update-from-arbitrary-state", gamma_, rep, amp), nontrivial=True)
         ctx.count("update_level_calls")
         if bad:
             i, what = bad[0]
-            rp = dict(call=rep, amplitude=amp, site=int(i), detail=what)
-            ctx.fail("update:answer-does-not-solve-for-given-state", f"TDGLSolver.update called with a state of amplitude {amp} returns psi' that does not solve the site equation built from that state: {what}", rp)
+            rp = dict(call=rep, gamma=gamma_, amplitude=amp, site=int(i), detail=what)
+            ctx.fail("update:answer-does-not-solve-for-given-state", f"gamma={gamma_}: TDGLSolver.update called with a state of amplitude {amp} returns psi' that does not solve the site equation built from that state: {what}", rp)
             first = first or dict(key="update:answer-does-not-solve-for-given-state", what=what, **rp)
             break
     return first
